@@ -73,7 +73,7 @@ def report_disagreements(rep, dis, correspondence, theorem):
 # =========================================================================================== C18
 
 def run_C18(rep, tier, rng):
-    n = 300 if tier == "quick" else 5000
+    n = 300 if tier == "quick" else 60000
     lines = list(corpus("C18"))
     for i in range(n):
         lines.append(gen.oset_history(rng, ["nat", "pair", "str"][i % 3], nops=rng.randint(4, 25)))
@@ -120,7 +120,7 @@ def rust_lines(text):
 
 
 def run_C15(rep, tier, rng):
-    n = 400 if tier == "quick" else 5000
+    n = 400 if tier == "quick" else 40000
     frags = ["// @sha256 ", "// @sha256", "//", "// x", "abc", "", " // @sha256 q", "// @sha256 // @sha256 abc", "// @SHA256 x", "/ /", "//@sha256 x",
              "// @sha256 0123abcd", "#![allow(x)]", "// é€😀", "// @sha256 é", "\r", "// @sha256 a\r", "// @sha256  two  spaces "]
     seps = ["\n", "\r\n", "\n\n", "\r", ""]
@@ -146,7 +146,7 @@ def run_C15(rep, tier, rng):
     # round trip through generate
     pool = [gen.render(g, rng if i % 2 else None) for i, (_, g, c) in enumerate(gen.families()) if c == "lalr"]
     pool += [t for t in example_texts()[:8]]
-    extra = 30 if tier == "quick" else 300
+    extra = 30 if tier == "quick" else 1500
     while len(pool) < extra:
         pool.append(gen.render(gen.random_grammar(rng, payload="mixed", derive=False), rng))
     pool += gen.invisible_probes(pool[:10], rng, per_base=(4 if tier == "quick" else 13))
@@ -308,7 +308,7 @@ def run_C07(rep, tier, rng):
 # =========================================================================================== C14
 
 def run_C14(rep, tier, rng):
-    nv, nm = (60, 150) if tier == "quick" else (400, 2000)
+    nv, nm = (60, 150) if tier == "quick" else (1200, 6000)
     valid, mal = text_stream(rng, nv, nm)
     # conflicts and validation errors are the paths that iterate hash collections
     conflicty = [gen.render(gen.random_grammar(rng, max_nt=4, max_t=3, maxlen=4)) for _ in range(nv)]
@@ -1232,7 +1232,7 @@ ATTRS_BALANCED = ["derive(Debug)", "derive(Clone, Debug)", "doc = \"é\"", "a(b[
 # =========================================================================================== C06
 
 def run_C06(rep, tier, rng):
-    n = 150 if tier == "quick" else 2500
+    n = 150 if tier == "quick" else 6000
     fam = [(items, gen.render(items)) for _, items, c in gen.families() if c == "lalr"]
     pool, tried = accepted_pool(rng, n)
     outs = kv.run_impl("generate", [kv.hexs(t) for _, t in fam])
@@ -1257,7 +1257,7 @@ def run_C06(rep, tier, rng):
 # =========================================================================================== C12
 
 def run_C12(rep, tier, rng):
-    n = 150 if tier == "quick" else 2500
+    n = 150 if tier == "quick" else 6000
     rejected = []
     pool, tried = accepted_pool(rng, n, attrs=True, rejected=rejected)
     # balanced single-line attributes must not change whether a file is accepted: a rejected file whose
@@ -1313,7 +1313,7 @@ def rust_type_tokens(s):
 
 
 def run_C13(rep, tier, rng):
-    n = 150 if tier == "quick" else 2500
+    n = 150 if tier == "quick" else 6000
     pool, tried = accepted_pool(rng, n)
     # deeper random types
     def rtype(d):
@@ -1426,7 +1426,7 @@ def _has_empty_terminal_enum(text):
 
 
 def run_C05(rep, tier, rng):
-    n = 120 if tier == "quick" else 2000
+    n = 120 if tier == "quick" else 5000
     # adversarial namings: generator-internal names, S, numeric-suffix neighbours, names without letters
     pool, tried = accepted_pool(rng, n, names="adversarial", derive=False)
     special = []
@@ -1491,7 +1491,7 @@ def kiki_grammar():
 
 
 def run_C09(rep, tier, rng):
-    n = 60 if tier == "quick" else 800
+    n = 60 if tier == "quick" else 2500
     Gk = kiki_grammar()
     bases = []
     for _, items, _c in gen.families():
@@ -1728,7 +1728,7 @@ VALIDATION_ERRS = ["NoStartSymbol", "MultipleStartSymbols", "NoTerminalEnum", "M
 
 
 def run_C10(rep, tier, rng):
-    n = 400 if tier == "quick" else 6000
+    n = 400 if tier == "quick" else 30000
     cases = []
     fam = [items for _, items, _ in gen.families()]
     while len(cases) < n:
@@ -1831,8 +1831,8 @@ def layout_canon(gen_line, tok_line, text):
 
 
 def run_C16(rep, tier, rng):
-    n = 70 if tier == "quick" else 1000
-    k = 3 if tier == "quick" else 6
+    n = 70 if tier == "quick" else 3000
+    k = 3 if tier == "quick" else 8
     bases = [items for _, items, _ in gen.families()]
     while len(bases) < n:
         items = gen.random_grammar(rng, names=rng.choice(["plain", "adversarial"]), payload="mixed", derive=rng.random() < 0.5)
